@@ -74,7 +74,7 @@ let parse_action (a : string) : Model.action =
               | [st; body; d] -> Model.FRespond (n_of_string st, unhex body, d = "1")
               | _ -> failwith "R")
     | 'D' | 'P' -> Model.FDrop
-    | 'W' | 'X' | 'Y' | 'F' -> Model.FWriter (unhex rest)
+    | 'W' | 'X' | 'Y' | 'F' | 'V' -> Model.FWriter (unhex rest)
     | 'Z' | 'Q' -> Model.FWriter []
     | 'U' -> Model.FUpgrade (unhex rest)
     | _ -> failwith "finish" in
